@@ -207,6 +207,20 @@ def run_history(h, crash_at=None, torn=False):
     effects = []
     crashed_lifetimes = set()
     crossed_chunk = False
+    # every AEAD encryption of the whole history, by (key, nonce): the statement is about nonces, of which the sender
+    # sequence number is only one source (a response may re-use the nonce of the request it answers, exactly once)
+    sealed = {}
+    alg = oscore.algorithms["AES-CCM-16-64-128"]
+    orig_encrypt = alg.encrypt
+
+    def recording_encrypt(plaintext, aad, key, iv):
+        k = (bytes(key), bytes(iv))
+        if k in sealed and sealed[k] != (bytes(plaintext), bytes(aad)):
+            vio.append(V("C13/aead-nonce-reused-under-one-key", "nonce %s was used twice with one key for different messages (%d and %d bytes of plaintext)" % (bytes(iv).hex(), len(sealed[k][0]), len(plaintext))))
+        sealed.setdefault(k, (bytes(plaintext), bytes(aad)))
+        return orig_encrypt(plaintext, aad, key, iv)
+
+    alg.encrypt = recording_encrypt
     try:
         lifetimes = list(h["lifetimes"]) + [{"ops": [["verify"]], "end": "clean"}]
         for li, lt in enumerate(lifetimes):
@@ -272,6 +286,12 @@ def run_history(h, crash_at=None, torn=False):
                                 except oscore.ProtectionInvalid:
                                     outcome = "rejected"
                                 if not is_new:
+                                    if outcome == "echo":
+                                        # a server sends the challenge, so it is built (and sealed) here as well
+                                        try:
+                                            exc.to_message()
+                                        except oscore.ContextUnavailable:
+                                            pass
                                     if outcome == "accepted":
                                         when = [l_ for l_, n_, _d in accepted if n_ == n][0]
                                         unclean_between = any(l_ in crashed_lifetimes for l_ in range(when, li))
@@ -298,6 +318,11 @@ def run_history(h, crash_at=None, torn=False):
                                     except oscore.ProtectionInvalid as e2:
                                         vio.append(V("C13/echo-recovery-fails", repr(e2)))
                                 elif outcome == "accepted":
+                                    # the request is answered: the response re-uses the request's nonce under this context's key
+                                    try:
+                                        ctx.protect(aiocoap.Message(code=aiocoap.CONTENT, payload=b"answer-%d" % n), rid)
+                                    except oscore.ContextUnavailable:
+                                        pass
                                     # (a crash after the final store of a clean shutdown leaves exact state on disk, so accepting a *new*
                                     # request without Echo is not by itself a violation; what must never happen is accepting an old one again)
                                     accepted.append((li, n, data))
@@ -320,6 +345,10 @@ def run_history(h, crash_at=None, torn=False):
                 del _registry[:]
         return vio, effects, {"crossed_chunk": crossed_chunk, "pivs": len(pivs_all), "accepted": len(accepted)}
     finally:
+        try:
+            del alg.encrypt
+        except AttributeError:
+            pass
         release_all()
         shutil.rmtree(base, ignore_errors=True)
 
